@@ -69,6 +69,12 @@ fn run(op: &str, a: &[&str]) -> String {
         "and_rr" => format!("ok {}", hi(&(&ibig(a[0]) & &ibig(a[1])))),
         "or_rr" => format!("ok {}", hi(&(&ibig(a[0]) | &ibig(a[1])))),
         "xor_rr" => format!("ok {}", hi(&(&ibig(a[0]) ^ &ibig(a[1])))),
+        "and_vr" => format!("ok {}", hi(&(ibig(a[0]) & &ibig(a[1])))),
+        "or_vr" => format!("ok {}", hi(&(ibig(a[0]) | &ibig(a[1])))),
+        "xor_vr" => format!("ok {}", hi(&(ibig(a[0]) ^ &ibig(a[1])))),
+        "and_rv" => format!("ok {}", hi(&(&ibig(a[0]) & ibig(a[1])))),
+        "or_rv" => format!("ok {}", hi(&(&ibig(a[0]) | ibig(a[1])))),
+        "xor_rv" => format!("ok {}", hi(&(&ibig(a[0]) ^ ibig(a[1])))),
         "not" => format!("ok {}", hi(&!ibig(a[0]))),
         "not_r" => format!("ok {}", hi(&!&ibig(a[0]))),
         // UBig x UBig
@@ -78,6 +84,12 @@ fn run(op: &str, a: &[&str]) -> String {
         "uand_rv" => format!("ok {}", hu(&(&ubig(a[0]) & ubig(a[1])))),
         "uor_vr" => format!("ok {}", hu(&(ubig(a[0]) | &ubig(a[1])))),
         "uxor_rr" => format!("ok {}", hu(&(&ubig(a[0]) ^ &ubig(a[1])))),
+        "uand_vr" => format!("ok {}", hu(&(ubig(a[0]) & &ubig(a[1])))),
+        "uand_rr" => format!("ok {}", hu(&(&ubig(a[0]) & &ubig(a[1])))),
+        "uor_rv" => format!("ok {}", hu(&(&ubig(a[0]) | ubig(a[1])))),
+        "uor_rr" => format!("ok {}", hu(&(&ubig(a[0]) | &ubig(a[1])))),
+        "uxor_vr" => format!("ok {}", hu(&(ubig(a[0]) ^ &ubig(a[1])))),
+        "uxor_rv" => format!("ok {}", hu(&(&ubig(a[0]) ^ ubig(a[1])))),
         // mixed UBig / IBig
         "and_ui" => format!("ok {}", hu(&(ubig(a[0]) & ibig(a[1])))),
         "and_iu" => format!("ok {}", hu(&(ibig(a[0]) & ubig(a[1])))),
